@@ -88,7 +88,7 @@ PINNED = {
                                 '_get_queued_transfers', '_queue_remotely'],
     'model:Transfer': ['is_transfered', '_transfer_progress_callback'],
 }
-FILES = {'connection': 'network/connection.py', 'manager': 'transfer/manager.py', 'model': 'transfer/model.py',
+FILES = {'naming': 'naming.py', 'connection': 'network/connection.py', 'manager': 'transfer/manager.py', 'model': 'transfer/model.py',
          'state': 'transfer/state.py', 'primitives': 'protocol/primitives.py', 'messages': 'protocol/messages.py',
          'rate_limiter': 'network/rate_limiter.py', 'network': 'network/network.py', 'events': 'events.py', 'utils': 'utils.py',
          'shares': 'shares/manager.py', 'exceptions': 'exceptions.py', 'constants': 'constants.py'}
@@ -116,7 +116,9 @@ HELPERS = {
                         '_make_direct_connection', 'on_message_received', 'set_upload_speed_limit', 'set_download_speed_limit'],
     'events:EventBus': ['register', 'emit'], 'events:': ['on_message', 'build_message_map'],
     'utils:': ['ticket_generator'],
-    'shares:SharesManager': ['get_filesize', 'create_directory', 'get_download_directory'],
+    'shares:SharesManager': ['get_filesize', 'create_directory', 'get_download_directory', 'calculate_download_path'],
+    'naming:': ['chain_strategies'], 'naming:NamingStrategy': None, 'naming:DefaultNamingStrategy': None, 'naming:KeepDirectoryStrategy': None,
+    'naming:DuplicateNamingStrategy': None, 'naming:NumberDuplicateStrategy': None,
     'exceptions:AioSlskException': None, 'exceptions:NetworkError': None, 'exceptions:PeerConnectionError': None,
     'exceptions:ConnectionReadError': None, 'exceptions:ConnectionWriteError': None, 'exceptions:ConnectionFailedError': None,
 }
